@@ -54,7 +54,20 @@ var cat = func() []*lib.T {
 	if u.DefaultNestedMessage != nil {
 		u.DefaultNestedMessage.ProtoReflect().SetUnknown(protowire.AppendVarint(protowire.AppendTag(nil, 9001, protowire.VarintType), 8))
 	}
-	return append(c, u)
+	// ... and messages that carry them at ONE level only: below a level that has none (nested message; the message
+	// nested in that), and at the top only
+	last := c[len(c)-1]
+	n1 := proto.Clone(last).(*lib.T)
+	if n1.DefaultNestedMessage != nil {
+		n1.DefaultNestedMessage.ProtoReflect().SetUnknown(protowire.AppendVarint(protowire.AppendTag(nil, 9001, protowire.VarintType), 8))
+	}
+	n2 := proto.Clone(last).(*lib.T)
+	if n2.DefaultNestedMessage.GetCorecursive() != nil {
+		n2.DefaultNestedMessage.Corecursive.ProtoReflect().SetUnknown(protowire.AppendVarint(protowire.AppendTag(nil, 9002, protowire.VarintType), 9))
+	}
+	n3 := proto.Clone(last).(*lib.T)
+	n3.ProtoReflect().SetUnknown(protowire.AppendVarint(protowire.AppendTag(nil, 9000, protowire.VarintType), 7))
+	return append(c, u, n1, n2, n3)
 }()
 
 func guarded(f func()) (p any) {
